@@ -1,6 +1,13 @@
 #!/usr/bin/env python3
 import json,sys
 pid=sys.argv[1]
+import glob,os
+prev=[]
+for d in sorted(glob.glob('/verif/seeded/%s-*/meta.json'%pid)):
+    try: prev.append(json.load(open(d))['summary'][:220])
+    except Exception: pass
+avoid=''
+if prev: avoid='\n\nEarlier rounds already produced the following changes for this property; yours must have DIFFERENT root causes and touch different logic:\n'+'\n'.join(' - '+x+' ...' for x in prev)
 for l in open('/verif/properties.jsonl'):
     p=json.loads(l)
     if p['id']==pid: break
@@ -16,6 +23,8 @@ TASK: write a change to the library sources (under src/h3lib/) that BREAKS this 
 (280 tests; ALL must pass with your change applied. The sandbox has no network.)
 
 The change must be realistic — the kind of slip a refactoring, an optimisation or a "simplification" could introduce, in real library logic or tables, not a planted `if (input == MAGIC)` backdoor — and it must need something SPECIFIC to manifest: an unusual input region (e.g. one pentagon orientation, one icosahedron face edge, a particular resolution parity or depth, cells near a pole / the antimeridian), a multi-step sequence of operations, a fault at a particular point, or two cooperating sites that each look fine alone. Do NOT produce a change that ordinary use exposes at once. Prefer changes whose effect is a wrong RESULT (the property is violated semantically) over a crash.
+
+{avoid}
 
 Please produce TWO independent changes with different root causes if you can (second one optional if time is short): deliver into {out}/ :
   patch.diff   — `git diff` of the source change (must apply with `git apply` from the repository root to a clean checkout)
